@@ -238,6 +238,7 @@ static int the_cb(jwt_t *jwt, jwt_config_t *config)
 	case 2: config->key = c->key; break;
 	case 3: config->alg = (jwt_alg_t)c->alg; break;
 	case 4: config->key = c->key; config->alg = (jwt_alg_t)(c->total++ == 0 ? c->warm_alg : c->alg); break;	/* same key, another alg from the second call on */
+	case 5: if (c->total++ == 0) { config->key = c->key; config->alg = (jwt_alg_t)c->warm_alg; } break;	/* another key+alg for the first token only, then hands off */
 	default: break;
 	}
 	return 0;
@@ -424,6 +425,31 @@ int main(int argc, char **argv)
 					if (wt) { jwt_checker_verify(chk, wt); free(wt); } else cx.total = 1;
 				} else cx.total = 1;
 				if (cx.total == 0) cx.total = 1;	/* the warm-up never reached the callback */
+				break;
+			}
+			case 10: {	/* history on one checker: the cell's setkey; a callback that selects (HS512, oct:64) for the first token only
+					 * (a token valid for that pair is verified) and leaves the configuration alone afterwards: the per-token
+					 * choice must not replace what the application pinned */
+				char *wt;
+				if (other_ki < 0) vh_harness_fail("route 10 needs oct:64 in the zoo");
+				setkey_rc = jwt_checker_setkey(chk, (jwt_alg_t)cfg, item);
+				if (!setkey_rc) { eff_alg = cfg; eff_key = item != NULL; }
+				cx.mode = 5; cx.warm_alg = JWT_ALG_HS512; cx.key = get_item(prov, other_ki, -1, 0);
+				g_cx = &cx; jwt_checker_setcb(chk, the_cb, (idx & 1) ? &cx : NULL);
+				wt = vh_ref_token(&Z[other_ki].k, JWT_ALG_HS512, "{\"alg\":\"HS512\"}", "{\"sub\":\"first-token-only\"}");
+				if (wt) {
+					int rc2, rv;
+					jwt_checker_verify(chk, wt); jwt_checker_error_clear(chk);
+					if (cx.total == 0) cx.total = 1;
+					/* the same token again, now that the callback keeps out: judged like any other token of this cell */
+					rv = z->present ? vh_ref_token_valid(&z->k, wt, NULL) : 0;
+					cx.calls = 0;
+					rc2 = jwt_checker_verify(chk, wt);
+					printf("[\"V\",%ld,%d,%d,%d,%d,%d,%d,%d,%d,%d,%d,%d,%d,%d,%d,", idx, prov, route, cfg, ki, kalg, pub, setkey_rc, eff_alg, eff_key, 3, 2, rv, rc2, jwt_checker_error(chk));
+					put_msg(jwt_checker_error_msg(chk)); printf(",%d,[]]\n", cx.calls);
+					jwt_checker_error_clear(chk);
+					free(wt);
+				} else cx.total = 1;
 				break;
 			}
 			case 8: {	/* preset by setkey(none, another key that names its alg), then the callback replaces key and alg */
